@@ -168,3 +168,8 @@ Proof.
     + apply (Done_undecided lam vals Hvals T (rev D ++ []) _ _ Hff W _ Dn).
     + destruct BD as [->|BD]; [cbn; lia | lia].
 Qed.
+
+(* C01 for the model of the code: any parents-first arrangement of any subset of a valid run is accepted
+   and yields a prefix of the blocks; the same set yields the same blocks *)
+Theorem link_C01 cap lam : C01_full_on link_side (abft_run cap lam).
+Proof. apply C01_on_from_refinement; [exact link_side_sub | apply link_full]. Qed.
